@@ -361,6 +361,7 @@ func c03prop(ev *evid.Rec) func(rt *rapid.T) {
 			hs = append(hs, h)
 		}
 		baitChat := rapid.IntRange(0, 2).Draw(rt, "inviteTheSentinelAndLeave") == 0
+		kickAmongHostile := rapid.IntRange(0, 2).Draw(rt, "hostileKicksHostile") == 0
 		reached := 0
 		var panics int64
 		// watchdog in real time, started outside the bubble (inside it the clock is fake): a wedged server makes the
@@ -533,6 +534,27 @@ func c03prop(ev *evid.Rec) func(rt *rapid.T) {
 			for id := 1; id <= ngood+nhost+2; id++ {
 				if r := sentinel.Request(hlref.TranGetClientInfoText, fld(hlref.FUserID, hlref.BE16(id))); r == nil {
 					rt.Fatalf("sentinel got no reply to a get-client-info request about user %d while hostile connections were active (sentinel disconnected: %v): %s", id, sentinel.EOF(), desc)
+				}
+			}
+			// hostile users may also turn on each other with well-formed requests: one of them has another one disconnected.
+			// Once they are all gone the counters are what the well-behaved clients account for, as always.
+			if kickAmongHostile {
+				var in []*live
+				for _, lv := range ls {
+					if lv.in && !lv.c.EOF() && lv.h.Mode != "transfer" {
+						in = append(in, lv)
+					}
+				}
+				if len(in) >= 2 {
+					if us, err := sentinel.UserList(); err == nil {
+						for _, u := range us {
+							if strings.HasPrefix(string(u.Name), "h") && u.ID != 1 {
+								in[0].c.Send(hlref.Tran{Type: hlref.TranDisconnectUser, ID: 0x6b69636b, Fields: []hlref.Field{fld(hlref.FUserID, hlref.BE16(u.ID))}}.Encode())
+								break
+							}
+						}
+						settle(3 * time.Second)
+					}
 				}
 			}
 			// a well-behaved client reacts to what it is sent: a hostile user invites it to a private chat and leaves that chat
